@@ -742,6 +742,17 @@ pub fn drive_sizes(a: &Args, w: &Words, thorough: bool) {
     let mut rec = GenRec::new(&mut sh);
     rec.fin_every_call = false;
     const MAXSZ: u64 = 192u64 << 30;
+    // (0) the error values themselves: name, displayed text, classification
+    {
+        use ssdeep::FuzzyHashOperationError as OE;
+        let ge: Vec<String> = [GeneratorError::FixedSizeMismatch, GeneratorError::FixedSizeTooLarge, GeneratorError::InputSizeTooLarge, GeneratorError::OutputOverflow]
+            .iter()
+            .map(|e| format!("{{\"name\":\"{:?}\",\"msg\":\"{}\",\"tl\":{}}}", e, e, e.is_size_too_large_error()))
+            .collect();
+        let oe: Vec<String> = [OE::BlockHashOverflow, OE::StringizationOverflow].iter().map(|e| format!("{{\"name\":\"{:?}\",\"msg\":\"{}\"}}", e, e)).collect();
+        rec.begin();
+        rec.sh.emit(&format!("{{\"ev\":\"errs\",\"gen\":[{}],\"op\":[{}]}}", ge.join(","), oe.join(",")));
+    }
     // (1) the hook itself against really feeding zeros, small n: stepped by the spec too
     let dense: Vec<u64> = if thorough { (0..=600).collect() } else { (0..=40).chain([63, 64, 65, 111, 112, 113, 191, 192, 193, 255, 256, 257, 599, 600]).collect() };
     for &n in &dense {
